@@ -136,6 +136,8 @@ type RotateResult struct {
 	After    *types.RootCertificates // as returned (clear private keys)
 	T0, T1   time.Time
 	Err      error
+	// Straddled: a stored validity instant lay between T0 and T1
+	Straddled bool
 }
 
 func near(a, b time.Time, tol time.Duration) bool {
@@ -226,6 +228,15 @@ func JudgeRotate(w *World, cfg RootConfig, reinit bool, state *structpb.Struct) 
 	ok := res.Outcome == exp
 	for _, a := range amb {
 		ok = ok || res.Outcome == a
+	}
+	// a stored instant may have passed DURING the call (instants may be placed a
+	// fraction of a second from now): the decision for either end of the call is right
+	if exp1, amb1 := ExpectedOutcome(res.Before, res.T1, reinit); exp1 != exp {
+		res.Straddled = true
+		ok = ok || res.Outcome == exp1
+		for _, a := range amb1 {
+			ok = ok || res.Outcome == a
+		}
 	}
 	if !ok {
 		return fail("decision/"+string(exp)+"-expected-got-"+string(res.Outcome), "decision table: expected %s, observed %s (reinit=%v)", exp, res.Outcome, reinit)
